@@ -90,6 +90,7 @@ def run_case(data):
     closed = False
     nontrivial = False
     unacked = []         # our SETTINGS frames the peer has not acknowledged yet
+    answered = set()     # client: streams on which the peer has sent response headers
 
     def expect_frames(o, want, what):
         """want: list of dicts with type, sid, flags(mask must equal), fields."""
@@ -181,7 +182,8 @@ def run_case(data):
             break
         op = ch.weighted([(6, 'headers'), (5, 'data'), (2, 'end'), (2, 'push'), (2, 'prioritize'), (2, 'ping'),
                           (2, 'rst'), (2, 'wu'), (2, 'settings'), (2, 'altsvc'), (1, 'goaway'), (2, 'trailers'),
-                          (2, 'peer-mfs'), (2, 'answer-push'), (1, 'read-part-then-clear'), (2, 'peer-ack')])
+                          (2, 'peer-mfs'), (2, 'answer-push'), (1, 'read-part-then-clear'), (2, 'peer-ack'),
+                          (2, 'recv-data-and-ack')])
         if op == 'read-part-then-clear':
             # the application reads some of the queued frames (whole frames), drops the rest, and carries on:
             # what it reads afterwards is still a sequence of whole frames
@@ -204,6 +206,33 @@ def run_case(data):
                 r.violate('C02:partial-read-not-the-first-frame', repr(o.frames))
                 break
             r.labels.add('partial-read-and-clear')
+        elif op == 'recv-data-and-ack':
+            # the peer sends DATA and the application acknowledges part of it: whatever that (or a later
+            # acknowledgement of our SETTINGS) makes us emit is a sequence of valid frames - a WINDOW_UPDATE
+            # carries a positive increment
+            cands = [x for x in can_send if x % 2 == 1]
+            if not cands:
+                continue
+            sid = ch.pick(cands)
+            pre = b''
+            if client and sid not in answered:
+                pre = wire.headers(sid, s.hblock(RESP))
+                answered.add(sid)
+            n = ch.pick([1, 100, 3000, 10000])
+            o = s.feed(pre + wire.data(sid, b'r' * n))
+            if not o.ok:
+                r.violate('C02:harness:data-rejected', o.brief())
+                break
+            k = ch.pick([0, 1, n // 2, n])
+            o = s.call('acknowledge_received_data', k, sid)
+            r.step('recv DATA', sid, n, 'acknowledge_received_data', k, o.brief(), [(f.name, f.f.get('inc')) for f in o.frames])
+            if not o.ok:
+                r.violate('C02:valid-acknowledge-refused:%s' % o.exc_name, '%d of %d' % (k, n))
+                break
+            for f in o.frames:
+                if f.problems or f.type != wire.WINDOW_UPDATE or not f.f.get('inc'):
+                    r.violate('C02:malformed-frame:acknowledge:%s' % (f.problems[0] if f.problems else f.name), repr(f))
+            r.labels.add('received-data-partly-acknowledged')
         elif op == 'peer-ack':
             # the peer acknowledges our oldest outstanding SETTINGS frame: our own limits (MAX_FRAME_SIZE among
             # them) bind the peer, not us - whatever we send afterwards still respects the peer's values
@@ -216,7 +245,7 @@ def run_case(data):
                 r.violate('C02:harness:settings-ack-rejected', o.brief())
                 break
             for f in o.frames:
-                if f.problems or f.type != wire.WINDOW_UPDATE:
+                if f.problems or f.type != wire.WINDOW_UPDATE or not f.f.get('inc'):
                     r.violate('C02:unexpected-frame-after-ack', repr(f))
             sizes = [u[wire.S_HEADER_TABLE_SIZE] for u in [acked] + unacked if wire.S_HEADER_TABLE_SIZE in u]
             if sizes:
@@ -510,9 +539,20 @@ def run_case(data):
         elif op == 'goaway':
             code = ch.pick([0, 1, 11, ch.u32()])
             extra = ch.pick([None, b'', b'debug', ch.bytes(ch.int(1, 20))])
+            edge = None
+            if ch.chance(90) and mfs <= 40000:
+                # debug data that makes the GOAWAY frame (8 bytes + data) just fit the peer's limit, or just not
+                edge = ch.int(-2, 2)
+                extra = b'd' * (mfs - 8 + edge)
             last = ch.pick([None, 0, 1, 2**31 - 1, ch.int(0, 99)])
             o = s.call('close_connection', code, extra, last)
-            r.step('close_connection', code, extra, last, o.brief())
+            r.step('close_connection', code, len(extra) if extra else extra, last, o.brief())
+            if not o.ok and edge is not None and edge > 0:
+                if o.out:
+                    r.violate('C02:refused-call-emitted:close_connection:%s' % o.exc_name,
+                              repr([(f.name, f.length) for f in o.frames]))
+                r.labels.add('goaway-frame-edge-refused')
+                continue
             if not o.ok:
                 r.violate('C02:valid-close_connection-refused', '')
                 break
